@@ -219,4 +219,18 @@ PROPS = {
                    "the same key are not generated (Go map order would decide).",
         assumptions=["yaml.v2 encode/decode round-trips the value written (sampled; false for the key '<<')"],
     ),
+    "C18": dict(
+        families=[dict(name="hostile", args=["-specs", "5,20"])],
+        level_text="Theorems C18_stage_paths (every artifact path and working dir of an accepted stage, joined to any Clean "
+                   "absolute root as filepath.Join does, stays at or below the root), C18_stage_rejects, C18_manifest "
+                   "(every entry of a decodable manifest lands exactly one level below its directory), "
+                   "C18_writes_inside (at any nesting depth), C18_hostile_names. Tied to the code by hostile stage files "
+                   "('..' at every position, absolute paths, as output / input / working dir) through `dud stage add` "
+                   "and hostile manifests (../x, ../../x, /abs, a/b, '.', '..', empty, path != key, NUL) through checkout, "
+                   "checkout --copy, commit, status and pull, with a sentinel tree around the project hashed before and "
+                   "after every command.",
+        level_note="Containment is lexical: no symlinked directories on the way. The model addresses writes relative to "
+                   "the root by construction; that the binary writes only there is observed, not proved.",
+        assumptions=["no symlinked directories on artifact paths", "rclone writes only the listed relative paths under its destination"],
+    ),
 }
